@@ -212,6 +212,33 @@ def shim_pow(a, b, *m):
     return builtins.pow(a, b, *m)
 
 
+def shim_range(*a):
+    if not any(isinstance(v, SymNum) for v in a):
+        return builtins.range(*a)
+    if any(isinstance(v, SymReal) for v in a):
+        raise TypeError("'float' object cannot be interpreted as an integer")
+    if len(a) == 1:
+        start, stop, step = 0, a[0], 1
+    elif len(a) == 2:
+        start, stop, step = a[0], a[1], 1
+    else:
+        start, stop, step = a
+    if isinstance(step, SymInt):
+        step = step.__index__()
+    if step == 0:
+        raise ValueError("range() arg 3 must not be zero")
+    out = []
+    r = start
+    n = 0
+    while (r < stop) if step > 0 else (r > stop):  # comparisons fork; the loop is bounded by the decision bound
+        out.append(r)
+        r = r + step
+        n += 1
+        if n > 10000:
+            raise E.BoundExceeded("symbolic range longer than 10000")
+    return out
+
+
 def shim_isinstance(x, t):
     # proxies answer for the types they stand for
     from . import symdt
@@ -283,6 +310,7 @@ def install_shims(module):
     g["pow"] = shim_pow
     g["str"] = shim_str
     g["isinstance"] = shim_isinstance
+    g["range"] = shim_range
     from . import symdt, symstr
 
     symdt.install(module)
